@@ -580,8 +580,14 @@ def _functions_table(prog, rep):
                         bad.append(f"{f}(.., {src(a)}) with an operator that is not a literal here")
                     else:
                         lits.add(lit)
-                    if f == "UnaryOp" and src(c.args[0]) not in (f"_ensure_expr({p0})", p0):
-                        bad.append(f"UnaryOp is applied to `{src(c.args[0])[:30]}`, not to the argument")
+                    operand = c.args[0]
+                    if isinstance(operand, ast.Name) and operand.id != p0:
+                        defs = [x for x in walk_local(fi.node) if isinstance(x, (ast.Assign, ast.AnnAssign)) and x.value is not None
+                                and any(isinstance(t, ast.Name) and t.id == operand.id for t in (x.targets if isinstance(x, ast.Assign) else [x.target]))]
+                        if len(defs) == 1:
+                            operand = defs[0].value      # `operand = _ensure_expr(x)` / `operand: Expression = ...`
+                    if f == "UnaryOp" and src(operand) not in (f"_ensure_expr({p0})", p0):
+                        bad.append(f"UnaryOp is applied to `{src(c.args[0])[:30]}`, which is not read back to the argument")
                 elif f in modfuncs and f not in ("_ensure_expr",) and depth < 2:
                     h = modfuncs[f]
                     hb = {}
@@ -613,6 +619,10 @@ def _functions_table(prog, rep):
             continue
         n += 1
         ok = lits == {want} and not bad
+        if bad and lits <= {want}:
+            # every literal that could be read is the right one; the rest was not readable -- nothing positively wrong
+            rep.undecided(f"functions.{fi.name}: {bad[0]}; whether every route constructs the {want!r} node is not decided")
+            continue
         rep.ob("R02.1", f"functions.{fi.name}", ok, f"{fi.name}(x) constructs the {want!r} node on every route" if ok else f"functions.{fi.name} builds a node for a different operator than its name says ({sorted(map(str, lits))}{'; ' + bad[0] if bad else ''})", loc=fi.loc, detail="constructor-literal")
     if n < 15:
         raise AnalysisError("functions.py constructors not recognised")
